@@ -116,7 +116,9 @@ pub fn send_snap(s: &SendSnap, sc: Scale, src_ck: u32) -> Value {
         "progress": sc.off(s.sent_file_size),
         "rfs": sc.off(s.received_file_size),
         "eof": eof,
-        "ack": s.ack,
+        "ack": s.ack.is_some(),
+        "ackcond": s.ack.map(|a| cond_name(a.0)).unwrap_or("NoError"),
+        "ackstatus": s.ack.map(|a| status_name(a.1)).unwrap_or("Undefined"),
         "prompt": match s.prompt { None => "None", Some(0) => "Nak", Some(_) => "KeepAlive" },
         "eofInd": s.send_eof_indication,
         "cursor": sc.off(s.cursor),
@@ -150,7 +152,9 @@ pub fn recv_snap(r: &RecvSnap, sc: Scale, src_ck: u32) -> Value {
         "ckset": r.checksum.is_some(),
         "ckok": r.checksum.map(|c| c == src_ck).unwrap_or(true),
         "ack": r.ack.is_some(),
-        "ackcond": r.ack.map(cond_name).unwrap_or("NoError"),
+        "ackcond": r.ack.map(|a| cond_name(a.0)).unwrap_or("NoError"),
+        "ackstatus": r.ack.map(|a| status_name(a.1)).unwrap_or("Undefined"),
+        "fopen": r.file_open,
         "fin": fin,
         "prompt": match r.prompt { None => "None", Some(0) => "Nak", Some(_) => "KeepAlive" },
         "naks": sc.ranges(&r.naks),
